@@ -47,6 +47,8 @@ def run(ctx):
     maxlen = ctx.budget(3, 4)
     cases = list(X.CORPUS)
     cases += X.small_exhaustive(maxlen)
+    blen = ctx.budget(5, 7)
+    cases += X.bracket_exhaustive(blen) if ctx.tier != "thorough" else X.bracket_exhaustive(blen, (b"(", b")", b"[", b"]", b"{", b"}"))
     cases += X.random_rich(rng, ctx.budget(900, 30000))
     files = X.testdata_files(REPO)
     chunks = []
@@ -69,7 +71,7 @@ def run(ctx):
                 "space, slash, star, braces, letter, digit, dot, caret, a 2-byte rune, x) + random strings of 1..16 symbols over a "
                 "72-symbol alphabet (escapes, brackets, comment markers, BOM, invalid UTF-8 bytes, non-ASCII digits / marks / spaces, "
                 "keywords) + mutated chunks of the .proto files under internal/testdata and experimental/parser/testdata; "
-                "distinct = distinct text; non-trivial = non-empty" % (len(X.CORPUS), maxlen))
+                "distinct = distinct text; non-trivial = non-empty" % (len(X.CORPUS), maxlen, blen))
 
     outs = ctx.impl("xlexer", [{"mode": "lex", "s": c.hex()} for c in cases])
 
